@@ -165,3 +165,40 @@ package pql
 //@ loop 1
 //@   invariant exprWF(y) && strip(y) == strip(x) && height(y) <= height(x)
 //@   decreases height(y)
+
+// ---------------------------------------------------------------- one subquery
+
+//@ func pql.(*subquery).write
+//@   use plan
+//@   requires sub != nil && ctx != nil && sb != nil
+//@   requires opWF(ctx.source, sub.op) && sortWF(sub.sort) && takeWF(sub.take)
+//@   ensures @text: result == nil ==> out(sb) == WS(mapdom(ctx.scope), mapval(ctx.scope), ctx.mode, ctx.source, sub.sourceSQL, sub.op, sub.sort, sub.take, old(out(sb)))
+//@   assigns out(sb)
+//@ loop 1
+//@   invariant -1 <= rangeindex && rangeindex < len(op_ProjectOperator.Cols)
+//@   invariant WprojCols(mapdom(ctx.scope), mapval(ctx.scope), ctx.mode, op_ProjectOperator.Cols, rangeindex + 1, out(sb)) == WprojCols(mapdom(ctx.scope), mapval(ctx.scope), ctx.mode, op_ProjectOperator.Cols, 0, olit(old(out(sb)), "SELECT "))
+//@   decreases len(op_ProjectOperator.Cols) - rangeindex
+//@ loop 2
+//@   invariant -1 <= rangeindex && rangeindex < len(op_ExtendOperator.Cols)
+//@   invariant WextCols(mapdom(ctx.scope), mapval(ctx.scope), ctx.mode, ctx.source, op_ExtendOperator.Cols, rangeindex + 1, out(sb)) == WextCols(mapdom(ctx.scope), mapval(ctx.scope), ctx.mode, ctx.source, op_ExtendOperator.Cols, 0, olit(old(out(sb)), "SELECT *"))
+//@   decreases len(op_ExtendOperator.Cols) - rangeindex
+//@ loop 3
+//@   invariant -1 <= rangeindex && rangeindex < len(op_SummarizeOperator.GroupBy)
+//@   invariant WsumCols(mapdom(ctx.scope), mapval(ctx.scope), ctx.mode, ctx.source, op_SummarizeOperator.GroupBy, false, rangeindex + 1, out(sb)) == WsumCols(mapdom(ctx.scope), mapval(ctx.scope), ctx.mode, ctx.source, op_SummarizeOperator.GroupBy, false, 0, olit(old(out(sb)), "SELECT "))
+//@   decreases len(op_SummarizeOperator.GroupBy) - rangeindex
+//@ loop 4
+//@   invariant -1 <= rangeindex && rangeindex < len(op_SummarizeOperator.Cols)
+//@   invariant WsumCols(mapdom(ctx.scope), mapval(ctx.scope), ctx.mode, ctx.source, op_SummarizeOperator.Cols, len(op_SummarizeOperator.GroupBy) > 0, rangeindex + 1, out(sb)) == WsumCols(mapdom(ctx.scope), mapval(ctx.scope), ctx.mode, ctx.source, op_SummarizeOperator.Cols, len(op_SummarizeOperator.GroupBy) > 0, 0, WsumCols(mapdom(ctx.scope), mapval(ctx.scope), ctx.mode, ctx.source, op_SummarizeOperator.GroupBy, false, 0, olit(old(out(sb)), "SELECT ")))
+//@   decreases len(op_SummarizeOperator.Cols) - rangeindex
+//@ loop 5
+//@   invariant -1 <= rangeindex && rangeindex < len(op_SummarizeOperator.GroupBy)
+//@   invariant WgroupBy(mapdom(ctx.scope), mapval(ctx.scope), ctx.mode, op_SummarizeOperator.GroupBy, rangeindex + 1, out(sb)) == WgroupBy(mapdom(ctx.scope), mapval(ctx.scope), ctx.mode, op_SummarizeOperator.GroupBy, 0, olit(OStr(olit(WsumCols(mapdom(ctx.scope), mapval(ctx.scope), ctx.mode, ctx.source, op_SummarizeOperator.Cols, len(op_SummarizeOperator.GroupBy) > 0, 0, WsumCols(mapdom(ctx.scope), mapval(ctx.scope), ctx.mode, ctx.source, op_SummarizeOperator.GroupBy, false, 0, olit(old(out(sb)), "SELECT "))), " FROM "), sub.sourceSQL), " GROUP BY "))
+//@   decreases len(op_SummarizeOperator.GroupBy) - rangeindex
+//@ loop 6
+//@   invariant -1 <= rangeindex && rangeindex < len(op_RenderOperator.Props)
+//@   invariant Wprops(op_RenderOperator.Props, rangeindex + 1, out(sb)) == Wprops(op_RenderOperator.Props, 0, olit(QS(op_RenderOperator.ChartType.Name, olit(old(out(sb)), "SELECT *,\n    ")), " as \"render_type\""))
+//@   decreases len(op_RenderOperator.Props) - rangeindex
+//@ loop 7
+//@   invariant -1 <= rangeindex && rangeindex < len(sub.sort.Terms)
+//@   invariant Wterms(mapdom(ctx.scope), mapval(ctx.scope), ctx.mode, sub.sort.Terms, rangeindex + 1, out(sb)) == Wterms(mapdom(ctx.scope), mapval(ctx.scope), ctx.mode, sub.sort.Terms, 0, olit(WSop(mapdom(ctx.scope), mapval(ctx.scope), ctx.mode, ctx.source, sub.sourceSQL, sub.op, old(out(sb))), " ORDER BY "))
+//@   decreases len(sub.sort.Terms) - rangeindex
